@@ -9,6 +9,7 @@ import (
 
 	"github.com/alicebob/sqlittle"
 	sdb "github.com/alicebob/sqlittle/db"
+	"github.com/alicebob/sqlittle/sql"
 
 	"verifharness/hx"
 )
@@ -24,7 +25,7 @@ func fullExpected(o *hx.Oracle, d *hx.DB, t *hx.TableInfo) ([]hx.Row, error) {
 	}
 	sel := selectList(t.ColNames())
 	if t.WR == 0 {
-		sel = "rowid, " + sel
+		sel = t.RowidName() + ", " + sel
 	}
 	return o.Query(d.Path, fmt.Sprintf("SELECT %s FROM %s ORDER BY %s", sel, hx.QuoteIdent(t.Name), order))
 }
@@ -49,6 +50,7 @@ func project(t *hx.TableInfo, full []hx.Row, cols []string) ([]hx.Row, bool) {
 		if idx[i] < 0 {
 			u := strings.ToUpper(c)
 			if t.WR == 0 && (u == "ROWID" || u == "OID" || u == "_ROWID_") {
+				// (a real column of that name was matched above, as in SQLite)
 				idx[i] = 0
 			} else {
 				return nil, false
@@ -101,7 +103,7 @@ func columnLists(rng *rand.Rand, t *hx.TableInfo, n int) [][]string {
 		lists = append(lists, cols)
 	}
 	if t.WR == 0 {
-		lists = append(lists, []string{"rowid"}, append([]string{"_rowid_"}, names...))
+		lists = append(lists, []string{"rowid"}, append([]string{"_rowid_"}, names...), []string{"oid", "OID", "RowId"})
 	}
 	return lists
 }
@@ -172,8 +174,19 @@ func C01(run *hx.Run) {
 						run.Violation(base+"/error-after-rows", fmt.Sprintf("Select returned error %q after delivering %d rows of a well-formed table", err, len(got)), detail)
 					} else if li == 0 {
 						accepted = false
-						run.Count("tables_rejected_by_sqlittle", 1)
-						run.See("rejected", t.Name+": "+err.Error())
+						// "a definition sqlittle cannot interpret produces an error": only that is a rejection
+						defOK := false
+						if t.SQL != nil {
+							if st, perr := sql.Parse(*t.SQL); perr == nil {
+								_, defOK = st.(sql.CreateTableStmt)
+							}
+						}
+						if defOK {
+							run.Violation(base+"/error-on-accepted-definition", fmt.Sprintf("Select(%s) on %s failed with %q although sqlittle parses the table's definition", t.Name, hx.ProfileName(idx, d.Profile), err), detail)
+						} else {
+							run.Count("tables_rejected_by_sqlittle", 1)
+							run.See("rejected", t.Name+": "+err.Error())
+						}
 					} else if accepted {
 						run.Violation(base+"/error-for-column-list", fmt.Sprintf("Select(%v) failed with %q although the table is accepted", cols, err), detail)
 					}
@@ -199,7 +212,7 @@ func C01(run *hx.Run) {
 			}
 			// online monitor: rowids strictly increasing
 			if t.WR == 0 {
-				got, err, _ := collectSelect(db, t.Name, []string{"rowid"})
+				got, err, _ := collectSelect(db, t.Name, []string{t.RowidName()})
 				if err == nil {
 					for i := 1; i < len(got); i++ {
 						a, _ := got[i-1][0].(int64)
